@@ -525,6 +525,21 @@ def sample(xs: Sequence[Any], k: int, rng: random.Random) -> List[Any]:
 
 
 # ====================================================================== the C01 / C09 program sets
+def adaptive_family(extra: str) -> List[Tuple[str, tuple]]:
+    """Needles containing a character the translator itself introduced (adaptive alphabet), next to wildcards."""
+    s, u = ("field", "s"), ("field", "u")
+    out: List[Tuple[str, tuple]] = []
+    for c in extra:
+        needles = [c, c + "%", "%" + c, c + "_", "_" + c, c + c, "a" + c, c + "a", c + "'", "%" + c + "%", "a" + c + "b%", "b%" + c]
+        for nd in needles:
+            for fn in STR_FUNCS_BOOL:
+                out.append(("adaptive-alphabet", ("call", fn, [s, ("str", nd)])))
+        out.append(("adaptive-alphabet", ("cmp", "eq", s, ("str", c))))
+        out.append(("adaptive-alphabet", ("call", "contains", [s, u])))
+        out.append(("adaptive-alphabet", ("cmp", "eq", ("call", "indexof", [s, ("str", c + "%")]), ("int", "?"))))
+    return out
+
+
 def special_families(extended: bool = False) -> List[Tuple[str, tuple]]:
     """Hand-picked families that must always be present (name, term); integer slots are ('int','?')."""
     a, b, s, u, f, k = ("field", "a"), ("field", "b"), ("field", "s"), ("field", "u"), ("field", "f"), INT_Q
